@@ -361,7 +361,11 @@ def resonances(node):
 def gen_fourbody(rng, event_idx=None, picks=None, namps=None, dangle=True):
     """Abstract four-body option file over the supported spin structures.  picks: [(family, wave, lineshape kind)] to force."""
     event_idx = rng.randrange(3) if event_idx is None else event_idx
-    event = EVENT_TYPES[event_idx]
+    event = list(EVENT_TYPES[event_idx])
+    if rng.random() < 0.5:        # any arrangement of the final state (identical particles adjacent or not)
+        finals = event[1:]
+        rng.shuffle(finals)
+        event = [event[0], *finals]
     fams = TEMPLATES[event_idx]
     if picks is None:
         picks = []
@@ -426,6 +430,8 @@ def gen_fourbody(rng, event_idx=None, picks=None, namps=None, dangle=True):
         if rng.random() < 0.5:
             params.append((f"{nm}_width", rng.choice([0, 2]), repr(round(rng.uniform(40, 400), 3)), repr(round(rng.uniform(0.1, 3), 4))))
     params.append(("D0_radius", 2, "0.0037559", "0"))
+    params.append(("free_without_error", 0, repr(round(rng.uniform(0.1, 2), 4)), "0"))
+    params.append(("fixed_with_error", 2, repr(round(rng.uniform(0.1, 2), 4)), "0.25"))
     rng.shuffle(params)
     return {"event": event, "lines": lines, "params": params, "consts": consts, "cartesian": rng.choice([None, None, 0, 1]), "extras": []}
 
